@@ -711,6 +711,11 @@ func (g *psGen) randomOp() {
 	if name == "}" && g.depth > 0 {
 		name = "pop"
 	}
+	if name == "forall" && !g.o.ForallDict {
+		// a random forall could meet a dictionary and an order-sensitive body;
+		// PostScript leaves that order open, so no oracle may depend on it
+		name = "pop"
+	}
 	switch name {
 	case "[", "]", "<<", ">>", "}":
 		g.emitD(name, true, true)
